@@ -29,7 +29,7 @@ CHECKS = {
          "every sequence of ≤4 (thorough ≤5) lines over a 12-line alphabet of matching, non-matching, indented, blank, whitespace-only, partially matching and multi-byte lines × 5 anchored/unanchored patterns",
          "regex crate trusted; bounded scope", "§2 C06–C09"),
  "C10": ("model_checking", "E1", "exhaustive enumeration (explicit-state grid) of comment layouts × rule kinds; reported range compared with the constructed position of key / tag",
-         "full product of 8 host comment forms × 0..2 comment lines before and after the tag × multi-line tag × content on the tag's line × 3 indentations × multi-byte text × 8 rule kinds (sorted, sorted by regex group, unique, unique by regex group, pattern; line-count, check-lua, affects) × offending line 1..3 (12.6k applicable cases): the range must delimit exactly the offending key, or the start tag from `<` to `>`",
+         "full product of 8 host comment forms × 0..2 comment lines before and after the tag × multi-line tag × content on the tag's line × 3 indentations × multi-byte text × 8 rule kinds (sorted, sorted by regex group, unique, unique by regex group, pattern; line-count, check-lua, affects) × offending line 1..3 (18.8k applicable cases), plus the same rules in every comment form of every grammar's construction kit (23 grammars / 39 suffixes × tag layouts × LF/CRLF, 13k cases): the range must delimit exactly the offending key, or the start tag from `<` to `>`",
          "check-ai's range shares check-lua's code path and is exercised in C19", "§2 C10"),
  "C11": ("model_checking", "E1+E2", "explicit-state search over repository configurations through the real CLI + choice-prefix DFS over block-map and validator-body orders through the library",
          "every repository of ≤2 (thorough ≤3) blocks over 2 files × 13 rule combinations (two of them flagging the same position with two rules) (each rule absent / satisfied / violated by construction) × 7 severity spellings: exit status 1 iff an error-severity diagnostic is expected, stderr one JSON object with every expected (file, block, code, severity) exactly once, root-relative keys, nothing printed without diagnostics, `list` exits 0 with all blocks; the same states under every block-map order × every order of the validator thread bodies (≈470k executions) for the exactly-once clause",
